@@ -311,7 +311,7 @@ def jobs(tier):
             J.append(("job_str", dict(mode=mode, rep="cal", ranges={"M": (m, m)})))
         for lo in (1, 123, 245):
             J.append(("job_str", dict(mode=mode, rep="ord", ranges={"DOY": (lo, min(lo + 121, 366))})))
-        if greg or th:
+        if greg:
             # week dates: mod-7 arithmetic over decimal year digits is slow in z3 -> years 2000-2099 / +-002000-002099
             for w in ((1, 1), (2, 51), (52, 53)):
                 J.append(("job_str", dict(mode=mode, rep="week", ranges={"W": w, "y0": (2, 2), "y1": (0, 0)})))
@@ -360,7 +360,7 @@ INFO = {
     "bounds": {"quick": {"years": "0000..9999 (every calendar/ordinal date; week dates: 2000-2099), +-000000..999999 (Feb / year end; week dates: +-002000..002099)", "offsets": "-99:59..+99:59",
                          "decimal forms": "10 concrete times with 1-6 fraction digits (hh,ii / hh:mm,nn / hh:mm:ss,tt)",
                          "formats": "14 complete formats, last days of the year, years 0000..8999; formats with a literal zone: source offsets whole hours -14..+14, or -00:59..+00:59 late in the day", "modes": "gregorian; 360day for calendar/ordinal"},
-               "thorough": {"modes": "all 4", "formats": "each also dumped from another representation"}},
+               "thorough": {"modes": "calendar (every month) and ordinal dates in all 4 modes; week dates, expanded years, decimals and custom formats in gregorian", "formats": "each also dumped from another representation"}},
     "outside": ["decimal fractions with symbolic digits (floating point)", "more than two expanded year digits",
                 "custom formats other than the listed ones", "truncated points"],
     "assumptions": ["the regex shim interprets the library's own patterns; validated against re on every run",
